@@ -181,6 +181,9 @@ def run(eng, rep, tier):
     hopcroft_pending_rule(eng, ob, "C01.6")
     # ---------------------------------------------------------------- C01.7 names
     names.check(eng, rep, "C01")
+    # states and symbols live in the same dictionaries of the transition functions: sibling __eq__ must be symmetric
+    from . import eqsym
+    eqsym.check(eng, ob, "C01.8", "pyformlang.finite_automaton.finite_automaton_object.FiniteAutomatonObject")
     rep.stats.update(eng.stats())
     rep.floor = 40
 
